@@ -49,7 +49,7 @@ Step1 ==
                   v2 == Check(e.h \notin hs, "OpenOncePerConnObject", <<e.c, e.h>>, v1)
                   \* all callbacks of one event loop run on one goroutine
                   v3 == Check(Get(loopg, e.loop, e.g) = e.g, "LoopConfinement", <<e.c, e.loop, e.g>>, v2)
-                  v4 == Check(e.raddr = s.praddr /\ e.laddr = s.plisten, "AddrTruthful", <<e.c, e.raddr, e.laddr>>, v3)
+                  v4 == Check(e.raddr = s.praddr /\ (e.laddr = s.plisten \/ s.plisten = "*"), "AddrTruthful", <<e.c, e.raddr, e.laddr>>, v3)
               IN Step(Put(lc, e.c, [s EXCEPT !.life = "open", !.g = e.g, !.loop = e.loop, !.h = e.h]),
                       Put(loopg, e.loop, e.g), hs \cup {e.h}, pend, req, [eng EXCEPT !.opened = @ + 1], v4)
          [] e.ev = "Sys" /\ e.site = "el.read" /\ e.n > 0 ->
@@ -61,7 +61,7 @@ Step1 ==
                   v0 == Final(viols, <<"Traffic", e.c>>)
                   v1 == Check(s.life = "open", "TrafficOnlyWhileOpen", <<e.c, s.life>>, v0)
                   v2 == Check(e.g = s.g, "ConnNeverChangesLoop", <<e.c, e.g, s.g>>, v1)
-                  v3 == Check(e.raddr = s.praddr /\ e.laddr = s.plisten, "AddrStable", <<e.c, e.raddr, e.laddr>>, v2)
+                  v3 == Check(e.raddr = s.praddr /\ (e.laddr = s.plisten \/ s.plisten = "*"), "AddrStable", <<e.c, e.raddr, e.laddr>>, v2)
                   \* an OnTraffic that does not follow a read is the effect of a Wake: never more than were issued
                   v4 == Check(fromRead \/ s.wakeTraffic + 1 <= s.wakeIss, "TrafficOnlyFromReadOrWake", <<e.c, s.wakeTraffic, s.wakeIss>>, v3)
               IN Step(Put(lc, e.c, [s EXCEPT !.traffic = @ + 1, !.wakeTraffic = IF fromRead THEN @ ELSE @ + 1]),
